@@ -43,6 +43,8 @@ def make_cfg(name, seed=0, max_dev=1, checks=("toc_sync", "toc_vs_model", "inmem
     for s_, d_ in ((E, H), (GD, GF), (G, H), (E, GF)):
         ops.append(["copy", s_, d_, False])
         ops.append(["copy", s_, d_, True])
+    # the whole container copied into a new group of itself; a source given as node object instead of a path
+    ops += [["copy", "/", H, False], ["copy", "/", H, True], ["copyobj", G, H], ["copyobj", E, GF]]
     for s_, d_ in ((E, H), (GD, GF), (G, H), (GD, H), (H, E), (GF, GD)):  # the last two: back to a path the node had before
         ops.append(["move", s_, d_])
     ops += [["R"], ["B"]]
@@ -57,6 +59,14 @@ def toc_sync(cont, model, cfg, ctx):
     sc = contexp.scan_raw(cont.raw)
     P = lambda k, w: {"kind": "toc-" + k, "what": w}  # noqa: E731
     objs = sc["objects"]
+    # bookkeeping lives in /metador_container and in the metador_meta_* directories next to the nodes - nowhere else
+    for pth in sc["nodes"]:
+        segs = pth.strip("/").split("/")
+        for i, sg in enumerate(segs):
+            if sg.startswith("metador_") and not sg.startswith("metador_meta_") and not (i == 0 and sg == "metador_container"):
+                return P("stray-bookkeeping", f"reserved-name entity {pth} outside the documented places")
+            if sg.startswith("metador_"):
+                break
     for node, exists, ep, uuid, path in objs:
         if uuid is None:
             return P("foreign-entry", f"unexpected entry {path} in a metadata directory")
